@@ -1,5 +1,65 @@
+(* C06 -- the built-in Targets behave as a content map plus a reference -> descriptor map.
+   Only statements closed by [exact]; the lemmas live in Proofs/Stores.v, the executable
+   models (memory store, OCI layout store, abstract specification) in Model/Stores.v. *)
 From Oras Require Import Base.Prelude Model.Stores Proofs.Stores.
-Theorem C06_mem_push_present_noop : forall s d c x,
-  get gkey_eqb (gk d) (m_cas s) = Some x -> mem_step s (Push d c) = (s, OErr EAlreadyExists).
-Proof. exact mem_push_present_noop. Qed.
-Print Assumptions C06_mem_push_present_noop.
+
+(* For every history, the memory store (cas.Memory + resolver.Memory + graph.Memory)
+   answers exactly like the content map + tag map, and its content/tag maps are the
+   specification's (predecessor lists compared as sets). *)
+Theorem C06_refines_memory : forall h : list op,
+  mem_abs (fst (run mem_step mem_init h)) = fst (run mspec_step mspec_init h) /\
+  Forall2 out_equiv (snd (run mem_step mem_init h)) (snd (run mspec_step mspec_init h)).
+Proof. exact refines_memory. Qed.
+Print Assumptions C06_refines_memory.
+
+(* The same for the OCI layout store (blob files by digest + resolver with the implicit
+   tag-by-digest + graph, Untag, Delete without AutoGC, Tags), for every history over a
+   universe U in which every digest is used with one media type and size. *)
+Theorem C06_refines_oci : forall U : N -> gkey,
+  (forall g, k_dig (U g) = g) ->
+  forall h : list op, Forall (canon_op U) h ->
+  oci_abs (fst (run oci_step oci_init h)) = fst (run (ospec_step U) ospec_init h) /\
+  Forall2 out_equiv (snd (run oci_step oci_init h)) (snd (run (ospec_step U) ospec_init h)).
+Proof. exact refines_oci. Qed.
+Print Assumptions C06_refines_oci.
+
+(* A refused or failed operation leaves the whole concrete state (content, tags,
+   resolver tag sets, graph) literally unchanged, after any history. *)
+Theorem C06_failed_noop_memory : forall (h : list op) (o : op),
+  let s := fst (run mem_step mem_init h) in
+  is_err (snd (mem_step s o)) = true -> fst (mem_step s o) = s.
+Proof. exact failed_noop_memory. Qed.
+Print Assumptions C06_failed_noop_memory.
+
+Theorem C06_failed_noop_oci : forall U : N -> gkey,
+  (forall g, k_dig (U g) = g) ->
+  forall (h : list op) (o : op), Forall (canon_op U) h ->
+  let s := fst (run oci_step oci_init h) in
+  is_err (snd (oci_step s o)) = true -> fst (oci_step s o) = s.
+Proof. exact failed_noop_oci. Qed.
+Print Assumptions C06_failed_noop_oci.
+
+(* ---- the hypotheses are satisfiable: a concrete universe and history ---- *)
+Definition ex_U (g : N) : gkey :=
+  if g =? 1 then (1, 1, 10) else if g =? 2 then (6, 2, 5) else (0, g, 0).
+Definition ex_man := mkDesc 1 1 10 0.
+Definition ex_layer := mkDesc 6 2 5 0.
+Definition ex_hist : list op :=
+  [ Push ex_man (mkBlob 1 10 [(6, 2, 5)]); Push ex_layer (mkBlob 2 5 []);
+    Push ex_layer (mkBlob 2 5 []); Tag ex_man (RName 1); Resolve (RName 1); Resolve (RDig 2);
+    Preds ex_layer; Delete ex_man; Resolve (RName 1); Preds ex_layer; Delete ex_man ].
+
+Example C06_ex_U_dig : forall g, k_dig (ex_U g) = g.
+Proof.
+  intro g. unfold ex_U. destruct (g =? 1) eqn:E1; [apply N.eqb_eq in E1; now subst|].
+  destruct (g =? 2) eqn:E2; [apply N.eqb_eq in E2; now subst|]. reflexivity.
+Qed.
+
+Example C06_ex_canon : Forall (canon_op ex_U) ex_hist.
+Proof. repeat constructor. Qed.
+
+Example C06_ex_run :
+  snd (run oci_step oci_init ex_hist) =
+  [ OOk; OOk; OErr EAlreadyExists; OOk; ODesc ex_man; ODesc (mkDesc 0 2 5 0);
+    OPreds [(1, 1, 10)]; OOk; OErr ENotFound; OPreds []; OErr ENotFound ].
+Proof. vm_compute. reflexivity. Qed.
